@@ -28,8 +28,8 @@ def id_components(d):
 def explore(ck, hb, docs, reps=20):
     jobs = [{"id": i, "src": s, "n": reps, "want_ids": w} for i, (s, w, _) in enumerate(docs)]
     runs = []
-    for p in range(3):  # three fresh processes
-        res, dead = common.run_jobs(hb, "repeat", jobs, procs=8)
+    for p in range(3):  # three fresh processes; the third compiles with the cache option (repeated calls then share one parsed tree)
+        res, dead = common.run_jobs(hb, "repeat", [dict(j, cache=(p == 2)) for j in jobs], procs=8)
         runs.append(res)
         if dead:
             return [({"src": dead[0][0]["src"]}, "process died: " + dead[0][2][-200:])]
@@ -75,12 +75,15 @@ def run(ck):
                (["mj-class"] if any("mj-class" in x["attrs"] for x in docgen.walk(d)) else []) + \
                (["head-attributes"] if any(x["tag"] == "mj-attributes" for x in docgen.walk(d)) else []) + \
                (["multi-column"] if sum(1 for x in docgen.walk(d) if x["tag"] == "mj-column") >= 3 else [])
+        if len(docs) % 3 == 0:
+            docgen.with_inline_classes(d, ck.rng)
+            tags.append("inline-classes")
         docs.append((docgen.to_mjml(d), id_components(d), tags))
     failing = explore(ck, hb, docs)
     ck.sample({"document": FONTDOC, "calls": "20 in-process x 3 fresh processes"})
     ck.sample({"document": docs[-1][0][:300]})
     ck.cov["rule"] = ("fixtures + generated documents (weighted: several font families, mj-class, mj-attributes, several columns, carousels / "
-                      "hamburger navbars), each rendered 20x in-process in 3 fresh processes; equality after unifying 16-hex identifiers; "
+                      "hamburger navbars), each rendered 20x in-process in 3 fresh processes (the third with the cache option); equality after unifying 16-hex identifiers; "
                       "identifier count = number of id-bearing components. Non-trivial: >= 2 of those features; distinct by source.")
     if not failing and (bad_sites or bad_calls):
         # a site lost its determinism class: search harder on multi-font / multi-class documents
